@@ -105,6 +105,18 @@ mod ffi {
         pub fn clear_step(&mut self) { self.step = None; }
         pub fn advance(&mut self) -> i32 { if let Some(f) = &self.step { self.v = f(self.v); } self.v }
     }
+    // discriminants neither ascending nor gap-free
+    pub enum Level { Off = 0, High = 5, Low = 2 }
+    impl Level {
+        pub fn nth(k: u8) -> Level { match k { 0 => Level::Off, 1 => Level::High, _ => Level::Low } }
+        pub fn code(self) -> i32 { self as i32 }
+        pub fn maybe(k: u8) -> Option<Level> { if k < 3 { Some(Level::nth(k)) } else { None } }
+    }
+    pub enum Sign { Pos = 1, Neg = -3, Zero = 0 }
+    impl Sign {
+        pub fn nth(k: u8) -> Sign { match k { 0 => Sign::Pos, 1 => Sign::Neg, _ => Sign::Zero } }
+        pub fn code(self) -> i32 { self as i32 }
+    }
     pub struct Vec2 { pub x: i32, pub y: i32 }
     impl Vec2 {
         #[diplomat::attr(auto, add)]
@@ -124,7 +136,14 @@ const SPECIAL_DRIVER: &str = r#"#include <cstdio>
 #include "Num.hpp"
 #include "Vec2.hpp"
 #include "Counter.hpp"
+#include "Level.hpp"
+#include "Sign.hpp"
 int main() {
+  // enum values in both directions, every variant
+  for (int k = 0; k < 3; k++) { Level l = Level::nth(k); std::printf("level %d %d %d\n", k, (int)l.AsFFI(), l.code()); }
+  for (int k = 0; k < 3; k++) { Sign l = Sign::nth(k); std::printf("sign %d %d %d\n", k, (int)l.AsFFI(), l.code()); }
+  std::printf("level codes %d %d %d %d\n", Level(Level::Off).code(), Level(Level::High).code(), Level(Level::Low).code(), Sign(Sign::Neg).code());
+  { auto m = Level::maybe(1); auto n = Level::maybe(9); std::printf("level maybe %d %d\n", m.has_value() ? m.value().code() : -99, n.has_value() ? 1 : 0); }
   // a callback that Rust stores and calls later: it must stay alive exactly as long as Rust holds it
   auto token = std::make_shared<int>(7);
   {
@@ -159,7 +178,7 @@ int main() {
 }
 "#;
 
-const SPECIAL_EXPECTED: &str = "token after set 2\nadvance 8 15\ntoken after clear 1\nadvance 30\ntoken after drop 1\ncmp 1 2: -1 == 0 != 1 < 1 <= 1 > 0 >= 0\ncmp 2 2: 0 == 1 != 0 < 0 <= 1 > 0 >= 1\ncmp 3 2: 1 == 0 != 1 < 0 <= 0 > 1 >= 1\nvalue 67305985\nvalue 168496141\nat 0 some(13)\nat 1 some(12)\nat 2 some(11)\nat 3 some(10)\nat 4 none\nstr num(168496141)\narith 9,15 5,9 14,36 3,4\n+= 9,15\n-= 5,9\n*= 10,27\n/= 5,9\n";
+const SPECIAL_EXPECTED: &str = "level 0 0 0\nlevel 1 5 5\nlevel 2 2 2\nsign 0 1 1\nsign 1 -3 -3\nsign 2 0 0\nlevel codes 0 5 2 -3\nlevel maybe 5 0\ntoken after set 2\nadvance 8 15\ntoken after clear 1\nadvance 30\ntoken after drop 1\ncmp 1 2: -1 == 0 != 1 < 1 <= 1 > 0 >= 0\ncmp 2 2: 0 == 1 != 0 < 0 <= 1 > 0 >= 1\ncmp 3 2: 1 == 0 != 1 < 0 <= 0 > 1 >= 1\nvalue 67305985\nvalue 168496141\nat 0 some(13)\nat 1 some(12)\nat 2 some(11)\nat 3 some(10)\nat 4 none\nstr num(168496141)\narith 9,15 5,9 14,36 3,4\n+= 9,15\n-= 5,9\n*= 10,27\n/= 5,9\n";
 
 /// special methods of the C++ API (comparison operators, accessors, indexer, stringifier, arithmetic and compound
 /// assignment): a fixed module with real bodies, called through the generated operators
